@@ -490,7 +490,10 @@ class HostInterp:
                 if e.attr in obj.__dict__:
                     return obj.__dict__[e.attr]
                 if e.attr in obj._methods:
-                    return ("bound", obj, obj._methods[e.attr])
+                    node = obj._methods[e.attr]
+                    if any(isinstance(d, ast.Name) and d.id in ("property", "cached_property") for d in getattr(node, "decorator_list", [])):
+                        return self.call_function(node, [obj], {}, {})
+                    return ("bound", obj, node)
                 raise AnalysisError(f"interpretation: {obj._cls_name} object has no attribute {e.attr}")
             if isinstance(obj, Record):
                 if hasattr(obj, e.attr):
